@@ -132,7 +132,7 @@ Items(v, rev, sorted) ==
 \* copy of its parent. pub: the caller's context merged over the globals.
 InitState(pub) ==
   [env |-> << <<>> >>, pub |-> pub, out |-> <<>>, err |-> "", auto |-> TRUE,
-   cyc |-> <<>>, chg |-> <<>>, depth |-> 0, evs |-> <<>>, macros |-> <<>>, path |-> <<>>, files |-> <<>>, globals |-> <<>>, symbolic |-> FALSE]
+   cyc |-> <<>>, cycn |-> <<>>, chg |-> <<>>, depth |-> 0, evs |-> <<>>, macros |-> <<>>, path |-> <<>>, files |-> <<>>, globals |-> <<>>, symbolic |-> FALSE]
 
 Has(f, x) == x \in DOMAIN f
 Top(st) == st.env[Len(st.env)]
@@ -143,6 +143,15 @@ Pop(st) == [st EXCEPT !.env = SubSeq(@, 1, Len(@) - 1)]
 Emit(st, piece) == [st EXCEPT !.out = Append(@, piece)]
 Fail(st, msg) == IF st.err # "" THEN st ELSE [st EXCEPT !.err = msg]
 Ev(st, e) == [st EXCEPT !.evs = Append(@, e)]
+
+\* the value a `cycle ... as name` tag binds: a reference to that tag occurrence (s = its path) holding the value the cycle
+\* is at (l[1]).  Everywhere but as the argument of another cycle tag it reads as an object that prints what it holds.
+CycV(path, held) == V("cyc", 0, path, <<held>>)
+IsCycRef(st, e) == e.t = "var" /\ Len(e.path) = 1 /\ Lookup(st, e.path[1]).k = "cyc"
+\* the held value changes for everybody who holds the reference
+Reheld(env, key, held) ==
+  [lvl \in DOMAIN env |-> [nm \in DOMAIN env[lvl] |->
+      IF env[lvl][nm].k = "cyc" THEN (IF env[lvl][nm].s = key THEN CycV(key, held) ELSE env[lvl][nm]) ELSE env[lvl][nm]]]
 
 \* per-render state keyed by the identity of the tag occurrence (node id)
 GetK(f, id, dflt) == IF id \in DOMAIN f THEN f[id] ELSE dflt
@@ -159,6 +168,11 @@ LoopField(lr, f) == CASE f = "Counter" -> lr.l[1] [] f = "Counter0" -> lr.l[2] [
 
 \* the HTML-aware truncation filters hand back markup that is not escaped again (an explicit opt-out named by C02)
 SafeOutFilters == {"truncatechars_html", "truncatewords_html"}
+\* every (non-overlapping, leftmost first) occurrence of sub removed from s
+RECURSIVE RemoveSub(_, _)
+RemoveSub(s, sub) == IF sub = <<>> \/ Len(s) < Len(sub) THEN s
+                     ELSE IF SubSeq(s, 1, Len(sub)) = sub THEN RemoveSub(SubSeq(s, Len(sub) + 1, Len(s)), sub)
+                     ELSE <<Head(s)>> \o RemoveSub(Tail(s), sub)
 DefinedFilters == {"safe", "escape", "e", "length", "upper", "lower", "add", "default", "first", "last", "join", "cut", "capfirst"}
 
 ApplyDefined(f, v, a) ==
@@ -172,7 +186,7 @@ ApplyDefined(f, v, a) ==
     [] f = "first" -> IF v.k = "str" /\ v.s # <<>> THEN S(<<v.s[1]>>) ELSE IF v.k = "list" /\ v.l # <<>> THEN v.l[1] ELSE S(<<>>)
     [] f = "last" -> IF v.k = "str" /\ v.s # <<>> THEN S(<<v.s[Len(v.s)]>>) ELSE IF v.k = "list" /\ v.l # <<>> THEN v.l[Len(v.l)] ELSE S(<<>>)
     [] f = "capfirst" -> IF v.k = "str" /\ v.s # <<>> THEN S(<<UpAtom(v.s[1])>> \o Tail(v.s)) ELSE S(<<>>)
-    [] f = "cut" -> S(SelectSeq(StrOf(v), LAMBDA c : <<c>> # StrOf(a)))
+    [] f = "cut" -> S(RemoveSub(StrOf(v), StrOf(a)))
     [] f = "join" ->
          IF v.k = "list" THEN
            LET RECURSIVE J(_)
@@ -183,6 +197,8 @@ ApplyDefined(f, v, a) ==
 
 ----------------------------------------------------------------------------
 (* the interpreter *)
+DerefCyc(v) == IF v.k = "cyc" THEN V("stringer", 0, StrOf(v.l[1]), <<>>) ELSE v
+
 
 RECURSIVE Eval(_, _), EvalChain(_, _, _, _), EvalTagChain(_, _, _, _), Exec(_, _), ExecSeq(_, _, _), ExecItems(_, _, _, _), Loop(_, _, _, _, _),
           CallMacro(_, _, _, _), BindDefaults(_, _, _, _, _), ExecWith(_, _, _, _), FirstOf(_, _, _), EvalList(_, _, _),
@@ -214,7 +230,7 @@ EvalPath(v, path, i) ==
 Eval(e, st) ==
   IF st.err # "" THEN R(Nil, st, FALSE)
   ELSE CASE e.t = "lit" -> R(e.v, st, FALSE)
-    [] e.t = "var" -> LET v0 == Lookup(st, e.path[1]) IN
+    [] e.t = "var" -> LET v0 == DerefCyc(Lookup(st, e.path[1])) IN
                       LET v == EvalPath(v0, e.path, 2) IN R(v, st, v.k = "markup")
     [] e.t = "sub" ->
          \* e[i]: list/string by integer index, map by key; out of range or missing: the empty value; a scalar: error
@@ -239,7 +255,8 @@ Eval(e, st) ==
               CASE e.op = "==" -> R(B(ValEq(ra.v, rb.v)), rb.st, FALSE)
                 [] e.op = "!=" -> R(B(~ValEq(ra.v, rb.v)), rb.st, FALSE)
                 [] e.op = "<"  -> R(B(ra.v.n < rb.v.n), rb.st, FALSE)
-                [] e.op = "+"  -> IF ra.v.k = "str" \/ rb.v.k = "str" THEN R(S(StrOf(ra.v) \o StrOf(rb.v)), rb.st, FALSE)
+                \* (text - also text marked safe - on either side makes it a concatenation of the printed forms; the mark does not survive)
+                [] e.op = "+"  -> IF ra.v.k \in {"str", "markup"} \/ rb.v.k \in {"str", "markup"} THEN R(S(StrOf(ra.v) \o StrOf(rb.v)), rb.st, FALSE)
                                   ELSE R(I(ra.v.n + rb.v.n), rb.st, FALSE)
                 [] e.op = "in" -> R(B(CASE rb.v.k = "list" -> \E i \in 1..Len(rb.v.l) : ValEq(rb.v.l[i], ra.v)
                                         [] rb.v.k = "map" -> \E i \in 1..Len(rb.v.l) : rb.v.l[i].l[1] = ra.v
@@ -377,12 +394,29 @@ Exec(n, st) ==
          Bind([st EXCEPT !.macros = (<<n.name, Len(st.env)>> :> n) @@ @], n.name, MacroV(n.name, Len(st.env)))
     [] n.t = "cycle" ->
          LET i == GetK(st.cyc, st.path, 0) IN
-         LET r == Eval(n.args[(i % Len(n.args)) + 1], st) IN
+         LET item == n.args[(i % Len(n.args)) + 1] IN
+         LET escOf(e, v, safe, s0) == IF s0.auto /\ ~HasSafe(e) /\ ~safe /\ v.k \in {"str", "ap", "stringer"} THEN 1 ELSE 0 IN
+         IF IsCycRef(st, item) THEN
+            \* the argument names the value of another cycle tag: that cycle moves on, the reference now holds its next value
+            \* and - unless that tag is silent - the value is printed; this tag binds nothing
+            LET ref == Lookup(st, item.path[1]) IN
+            LET rn == st.cycn[ref.s] IN
+            LET stA == [st EXCEPT !.cyc = SetK(@, st.path, i + 1)] IN
+            LET j == GetK(stA.cyc, ref.s, 0) IN
+            LET item2 == rn.args[(j % Len(rn.args)) + 1] IN
+            LET st1 == [stA EXCEPT !.cyc = SetK(@, ref.s, j + 1)] IN
+            \* (an argument that names a cycle value - possibly this very one - stands for what that value holds)
+            LET r2 == IF IsCycRef(st1, item2) THEN R(Lookup(st1, item2.path[1]).l[1], st1, Lookup(st1, item2.path[1]).l[1].k = "markup") ELSE Eval(item2, st1) IN
+            IF r2.st.err # "" THEN r2.st
+            ELSE LET st2 == [r2.st EXCEPT !.env = Reheld(@, ref.s, r2.v)] IN
+                 IF rn.silent THEN st2 ELSE Emit(st2, W(r2.v, escOf(item2, r2.v, r2.safe, st2)))
+         ELSE
+         LET r == Eval(item, st) IN
          IF r.st.err # "" THEN r.st
-         ELSE LET st1 == [r.st EXCEPT !.cyc = SetK(@, st.path, i + 1)] IN
-              LET st2 == IF n.as # "" THEN Bind(st1, n.as, r.v) ELSE st1 IN
+         ELSE LET st1 == [r.st EXCEPT !.cyc = SetK(@, st.path, i + 1), !.cycn = SetK(@, st.path, n)] IN
+              LET st2 == IF n.as # "" THEN Bind(st1, n.as, CycV(st.path, r.v)) ELSE st1 IN
               \* cycle prints like a variable would: escaped under autoescape
-              IF n.silent THEN st2 ELSE Emit(st2, W(r.v, IF st2.auto /\ ~HasSafe(n.args[(i % Len(n.args)) + 1]) /\ ~r.safe /\ r.v.k \in {"str", "ap", "stringer"} THEN 1 ELSE 0))
+              IF n.silent THEN st2 ELSE Emit(st2, W(r.v, escOf(item, r.v, r.safe, st2)))
     [] n.t = "ifchanged" ->
          LET last == GetK(st.chg, st.path, [has |-> FALSE, v |-> <<>>]) IN
          IF n.args = <<>> THEN
